@@ -24,7 +24,7 @@ import time
 
 VERIF = "/verif"
 REPO = "/repo"
-KANI_FLAGS = ["-Z", "function-contracts", "-Z", "stubbing", "-Z", "unstable-options"]
+KANI_FLAGS = ["-Z", "function-contracts", "-Z", "stubbing", "-Z", "unstable-options", "-Z", "concrete-playback"]
 
 
 def log(*a):
@@ -66,13 +66,13 @@ def prepare_scratch(scratch, modules, contracts, use_models, for_playback=False)
 
     # Cargo.toml: drop [dev-dependencies], add [patch.crates-io]
     ct = open(f"{dst}/Cargo.toml").read()
-    ct2 = re.sub(r"\[dev-dependencies\].*?(?=\n\[)", "", ct, flags=re.S)
+    ct2 = re.sub(r"^tracing-subscriber\s*=.*\n", "", ct, flags=re.M)
     ct2 += ("\n[patch.crates-io]\n"
             f'tracing = {{ path = "{VERIF}/stubs/tracing" }}\n'
             f'lru = {{ path = "{VERIF}/stubs/lru" }}\n'
             "\n[lints.rust]\nunexpected_cfgs = { level = \"allow\" }\n")
     open(f"{dst}/Cargo.toml", "w").write(ct2)
-    changes.append("Cargo.toml: [dev-dependencies] removed; [patch.crates-io] tracing -> no-op macros, "
+    changes.append("Cargo.toml: dev-dependency tracing-subscriber removed (only examples use it); [patch.crates-io] tracing -> no-op macros, "
                    "lru -> three-slot stand-in")
 
     # harness modules (add-only)
@@ -304,7 +304,7 @@ def replay(scratch, h, res, out, pid):
                 rc2, nout, _, to2 = run_cmd(["cargo", "kani", "playback", "-Z", "concrete-playback", "--",
                                              tn.group(1)], cwd, 900, None)
                 open(srcfile, "w").write(open(srcfile).read().replace(f'#[path = "{tmp_h}"]', f'#[path = "{hfile}"]'))
-                native = nout[-6000:]
+                native = '\n'.join(l for l in nout.splitlines() if not re.match(r'^(warning|\s+\||\s+-->|\s*=|\s*$|\s+\d+ \|)', l))[-6000:]
                 if re.search(r"test result: FAILED|panicked at", nout):
                     reproduced = True
                 lines += ["", "native run of the counterexample against the real code (cargo kani playback):", native]
